@@ -55,7 +55,9 @@ func timeNano(v *Val) *Term {
 		unsup("time.Time value expected")
 	}
 	r := App("time.nano", SInt, v.Fs[0].X, v.Fs[1].X)
-	globalFacts = append(globalFacts, And(Le(Neg(Pow2(63)), r), Lt(r, Pow2(63))))
+	if !hasBound(r) {
+		globalFacts = append(globalFacts, And(Le(Neg(Pow2(63)), r), Lt(r, Pow2(63))))
+	}
 	return r
 }
 
@@ -1031,6 +1033,14 @@ func (c *Ctx) evalInitExpr(e ast.Expr, pkg *packages.Package, t types.Type, name
 			}
 		}
 		negID := func() *Term { return Num(-int64(1000 + c.typeTag("global:"+name))) }
+		// a package-level *big.Int built from constants: big.NewInt(c), new(big.Int).Exp/Sub/Add/Mul/Set(...) of such values
+		if isBigIntPtr(t) {
+			if b := c.evalBigInit(x, pkg, depth+1); b != nil {
+				ref := negID()
+				bigConsts[ref.Val.Int64()] = NumB(b)
+				return mkPtr(t, ref)
+			}
+		}
 		switch fn {
 		case "math/big.NewInt":
 			if tv := info.Types[x.Args[0]]; tv.Value != nil {
@@ -1048,6 +1058,105 @@ func (c *Ctx) evalInitExpr(e ast.Expr, pkg *packages.Package, t types.Type, name
 
 func init() {
 	_ = fmt.Sprintf
+}
+
+// evalBigInit evaluates an initialiser expression of a package-level *big.Int that is built from constants only.
+func (c *Ctx) evalBigInit(e ast.Expr, pkg *packages.Package, depth int) *big.Int {
+	if depth > 8 {
+		return nil
+	}
+	info := pkg.TypesInfo
+	switch x := e.(type) {
+	case *ast.ParenExpr:
+		return c.evalBigInit(x.X, pkg, depth+1)
+	case *ast.Ident, *ast.SelectorExpr:
+		// another never-written package-level *big.Int of the module
+		var obj types.Object
+		if id, ok := x.(*ast.Ident); ok {
+			obj = info.Uses[id]
+		} else {
+			obj = info.Uses[x.(*ast.SelectorExpr).Sel]
+		}
+		v, ok := obj.(*types.Var)
+		if !ok || v.Pkg() == nil || v.Parent() != v.Pkg().Scope() || !inModule(v.Pkg().Path()) || !isBigIntPtr(v.Type()) {
+			return nil
+		}
+		sp := c.P.SSAPkg[v.Pkg().Path()]
+		if sp == nil {
+			return nil
+		}
+		og, ok := sp.Members[v.Name()].(*ssa.Global)
+		if !ok || c.P.MutGlobals[og] {
+			return nil
+		}
+		oname := strings.TrimPrefix(v.Pkg().Path()+"."+v.Name(), modPath+"/")
+		ov, cached := globalCache[og]
+		if !cached {
+			ov = c.constGlobalValue(og, oname, v.Type())
+			globalCache[og] = ov
+			c.ConstGlobals[oname] = true
+		}
+		if ov != nil && ov.X.IsConst() {
+			if bv, ok := bigConsts[ov.X.Val.Int64()]; ok && bv.IsConst() {
+				return bv.Val
+			}
+		}
+		return nil
+	case *ast.CallExpr:
+		sel, ok := x.Fun.(*ast.SelectorExpr)
+		if !ok {
+			return nil
+		}
+		if o, ok := info.Uses[sel.Sel].(*types.Func); ok && o.Pkg() != nil && o.Pkg().Path() == "math/big" && o.Name() == "NewInt" && len(x.Args) == 1 {
+			if tv := info.Types[x.Args[0]]; tv.Value != nil {
+				b, ok := new(big.Int).SetString(constant.ToInt(tv.Value).ExactString(), 10)
+				if ok {
+					return b
+				}
+			}
+			return nil
+		}
+		// method on new(big.Int) (the receiver's previous value does not matter for these)
+		recv, isCall := sel.X.(*ast.CallExpr)
+		if !isCall {
+			return nil
+		}
+		if id, ok := recv.Fun.(*ast.Ident); !ok || id.Name != "new" {
+			return nil
+		}
+		arg := func(i int) *big.Int {
+			if i >= len(x.Args) {
+				return nil
+			}
+			return c.evalBigInit(x.Args[i], pkg, depth+1)
+		}
+		switch sel.Sel.Name {
+		case "Set":
+			return arg(0)
+		case "Add", "Sub", "Mul":
+			a, b := arg(0), arg(1)
+			if a == nil || b == nil {
+				return nil
+			}
+			switch sel.Sel.Name {
+			case "Add":
+				return new(big.Int).Add(a, b)
+			case "Sub":
+				return new(big.Int).Sub(a, b)
+			}
+			return new(big.Int).Mul(a, b)
+		case "Exp":
+			a, b := arg(0), arg(1)
+			if a == nil || b == nil || len(x.Args) != 3 || b.Sign() < 0 || b.BitLen() > 16 {
+				return nil
+			}
+			if id, ok := x.Args[2].(*ast.Ident); !ok || id.Name != "nil" {
+				return nil
+			}
+			return new(big.Int).Exp(a, b, nil)
+		}
+	}
+	return nil
 }
 
 
